@@ -59,6 +59,10 @@ def ofRow (j : Json) : Except String Row := do
   let vals ← (← getArr j "vals").mapM ofVal
   pure (mkRow types names vals)
 
+def ofFields (j : Json) : Except String (List Field) := do
+  (← getArr j "fields").mapM (fun f => do
+    pure { name := ← getCps f "name", dt := ← ofDType (← getStr f "dt") })
+
 def optJ {α} (f : α → Json) (tag : String) : Option α → Json
   | some a => f a
   | none => jErr tag
@@ -83,7 +87,18 @@ def handle (j : Json) : Except String Json := do
     pure (cps (format dt (← ofVal (← j.getObjVal? "v"))))
   | "cast" => do
     let dt ← ofDType (← getStr j "dt")
-    pure (jCast (cast dt (← getCps j "s")))
+    pure (jCast (castPy dt (← getCps j "s")))
+  | "tjoin" => do
+    let fields ← ofFields j
+    let vals ← (← getArr j "vals").mapM ofVal
+    match joinTyped fields vals with
+    | .ok r => pure (jOk (cps r))
+    | .error e => pure (jErr (errTag e))
+  | "tsplit" => do
+    let fields ← ofFields j
+    match splitTyped fields (← getCps j "s") with
+    | .ok r => pure (jOk (jList jVal r))
+    | .error e => pure (jErr (errTag e))
   | "row" => do
     let r ← ofRow j
     let q ← j.getObjVal? "q"
